@@ -64,6 +64,10 @@ def run(R):
                      "nowhere but in unify_terms, after both sides were resolved - a plain insert elsewhere binds a variable without "
                      "comparing it with the value it already has in the same pattern (`?X p ?X` would match `a p b`)")
     _r6(R)
+    R.rule("C18-R7", "one fresh-name counter for the whole search: the counter from which rule variables are renamed is a `&mut` parameter of the "
+                     "chaining helper, passed on unchanged to every recursive call and created once by the entry point - names generated in a "
+                     "nested call can therefore never coincide with a still unbound variable of a rule being applied further up")
+    _r7(R)
     helper = R.body("C18-R1", "Reasoner::backward_chaining_helper", crate="datalog")
     ren = R.body("C18-R1", "backward_chaining::rename_rule_variables", crate="datalog")
     if helper is None or ren is None:
@@ -316,3 +320,28 @@ def _r6(R):
         R.ob("C18-R6", "writer:" + b.short, "%s does not write a substitution itself (it calls unification)" % b.short, False, where=b.where(cs[0].ln),
              detail="a binding made with a plain insert is not compared with the binding the variable already has: a pattern that repeats a "
              "variable matches facts with different values in those positions, and answers that are not entailed are returned")
+
+
+def _r7(R):
+    prog = R.prog
+    helper = prog.one("Reasoner::backward_chaining_helper", crate="datalog")
+    ren = prog.one("backward_chaining::rename_rule_variables", crate="datalog")
+    entry = prog.one("Reasoner::backward_chaining", crate="datalog")
+    if helper is None or ren is None:
+        return
+    cparams = [i for i in range(1, helper.nargs + 1) if helper.local_ty(i).startswith("&mut") and "usize" in helper.local_ty(i)]
+    R.ob("C18-R7", "threaded", "the chaining helper takes the fresh-name counter as a `&mut usize` parameter", len(cparams) == 1, where=helper.where(),
+         detail=None if cparams else "a counter that restarts in every call hands the same names to nested rule applications")
+    if len(cparams) != 1:
+        return
+    cp = cparams[0]
+    for c in helper.calls():
+        if c.key == ren.key:
+            ok = helper.alias_root(c.args[1]) == cp
+            R.ob("C18-R7", "rename-uses-it", "rename_rule_variables draws names from that counter", ok, where=helper.where(c.ln))
+        if c.key == helper.key:
+            ok = any(helper.alias_root(a) == cp for a in c.args)
+            R.ob("C18-R7", "recursion-passes-it", "the recursive call passes the same counter on", ok, where=helper.where(c.ln))
+    if entry is not None:
+        calls = [c for c in entry.calls() if c.key == helper.key]
+        R.ob("C18-R7", "created-once", "the entry point creates the counter once and hands it to the search", len(calls) == 1, where=entry.where())
